@@ -248,7 +248,40 @@ def check_file_rewrite(good, bad):
         shutil.rmtree(root, ignore_errors=True)
 
 
+def check_file_oddities(good):
+    """(a) a byte order mark is a character like any other: a file that starts with U+FEFF is ungrammatical for
+    load() exactly as the same text is for loads(); (b) loads() takes TEXT: a one-line text that happens to spell
+    the path of an existing script file is a token soup, not that file"""
+    import blackbird
+    import shutil
+    from blackbird.error import BlackbirdSyntaxError
+    root = oracles.write_tree({"prog.xbb": good, "bom.xbb": "\ufeff" + good, "dir/inner.xbb": good})
+    old = os.getcwd()
+    try:
+        os.chdir(root)
+        with core.quiet():
+            try:
+                blackbird.load(os.path.join(root, "bom.xbb"))
+                return "a file that starts with a byte order mark (U+FEFF, an invalid symbol) is loaded as a program"
+            except BlackbirdSyntaxError:
+                pass
+            except Exception as e:  # noqa: BLE001
+                return "a file that starts with a byte order mark raises %r instead of BlackbirdSyntaxError" % (e,)
+        for text in (os.path.join(root, "prog.xbb"), "prog.xbb", "dir/inner.xbb", "./prog.xbb"):
+            r = core.impl_loads(text)
+            if r[0] == "ok":
+                return "loads(%r) returns the program stored in the file of that name" % (text,)
+            if not isinstance(r[1], BlackbirdSyntaxError):
+                return "loads(%r) raises %r instead of BlackbirdSyntaxError" % (text, r[1])
+        return None
+    finally:
+        os.chdir(old)
+        shutil.rmtree(root, ignore_errors=True)
+
+
 def replay(ctx, data):
+    if data.get("kind") == "file_oddities":
+        return check_file_oddities(data["good"])
     if data.get("kind") == "file_rewrite":
         return check_file_rewrite(data["good"], data["bad"])
     if data.get("kind") == "deep":
@@ -369,4 +402,7 @@ def run(ctx):
         msg = check_file_rewrite(good, bad)
         if msg:
             ctx.violation("syntax stage (load from a file): " + msg, {"kind": "file_rewrite", "good": good, "bad": bad})
+        msg = check_file_oddities(good)
+        if msg:
+            ctx.violation("syntax stage (files): " + msg, {"kind": "file_oddities", "good": good})
     listener_corr(ctx)
